@@ -396,6 +396,78 @@ func catalogPods() []PodCase {
 			})
 		}
 	}
+	// long lists: many items of one kind on an otherwise compliant pod, with the offending item first, last, in the middle,
+	// repeated, or absent — a verdict or a message must not depend on how long a list is
+	for _, n := range []int{8, 9, 16, 17, 33, 64} {
+		for _, where := range []string{"none", "first", "last", "middle", "twice"} {
+			n, where := n, where
+			at := func(i int) bool {
+				switch where {
+				case "first":
+					return i == 0
+				case "last":
+					return i == n-1
+				case "middle":
+					return i == n/2
+				case "twice":
+					return i == 1 || i == n-2
+				}
+				return false
+			}
+			add(fmt.Sprintf("many.caps.%d", n), func(p *corev1.Pod) {
+				var adds []corev1.Capability
+				for i := 0; i < n; i++ {
+					c := corev1.Capability(capUniverse[i%13]) // the first 13 are the baseline-allowed ones
+					if at(i) {
+						c = "SYS_ADMIN"
+					}
+					adds = append(adds, c)
+				}
+				p.Spec.Containers[0].SecurityContext.Capabilities.Add = adds
+			})
+			add(fmt.Sprintf("many.sysctls.%d", n), func(p *corev1.Pod) {
+				var l []corev1.Sysctl
+				for i := 0; i < n; i++ {
+					nm := sysctlNames[i%5]
+					if at(i) {
+						nm = "kernel.msgmax"
+					}
+					l = append(l, corev1.Sysctl{Name: nm, Value: "1"})
+				}
+				p.Spec.SecurityContext.Sysctls = l
+			})
+			add(fmt.Sprintf("many.volumes.%d", n), func(p *corev1.Pod) {
+				for i := 0; i < n; i++ {
+					v := corev1.Volume{Name: fmt.Sprintf("vol%02d", i), VolumeSource: corev1.VolumeSource{EmptyDir: &corev1.EmptyDirVolumeSource{}}}
+					if at(i) {
+						v.VolumeSource = corev1.VolumeSource{HostPath: &corev1.HostPathVolumeSource{Path: "/"}}
+					}
+					p.Spec.Volumes = append(p.Spec.Volumes, v)
+				}
+			})
+			add(fmt.Sprintf("many.ports.%d", n), func(p *corev1.Pod) {
+				var l []corev1.ContainerPort
+				for i := 0; i < n; i++ {
+					cp := corev1.ContainerPort{ContainerPort: int32(8000 + i)}
+					if at(i) {
+						cp.HostPort = int32(9000 + i)
+					}
+					l = append(l, cp)
+				}
+				p.Spec.InitContainers[0].Ports = l
+			})
+			add(fmt.Sprintf("many.annotations.%d", n), func(p *corev1.Pod) {
+				p.Annotations = map[string]string{}
+				for i := 0; i < n; i++ {
+					k, v := fmt.Sprintf("example.com/note-%02d", i), "x"
+					if at(i) {
+						k, v = fmt.Sprintf("container.apparmor.security.beta.kubernetes.io/c%02d", i), "unconfined"
+					}
+					p.Annotations[k] = v
+				}
+			})
+		}
+	}
 	// noise fields in isolation: must not change anything
 	add("noise.nodeSelector.windows", func(p *corev1.Pod) { p.Spec.NodeSelector = map[string]string{"kubernetes.io/os": "windows"} })
 	add("noise.all", func(p *corev1.Pod) { podNoise(NewRng(7), p) })
